@@ -572,6 +572,141 @@ def check_C14(ctx):
     ctx.assumptions.append('the Go race detector is the access-level trace checker (trusted, no false positives); TLA+ supplies the schedule classes and the design-level vector-clock model')
     vt.write_evidence(ctx, 'exploration', ctx.extra['rule'], exhaustive=False, trusted=['Go race detector', 'TLC'])
 
+LISTENER = '''
+import socket
+s = socket.socket(); s.setsockopt(socket.SOL_SOCKET, socket.SO_REUSEADDR, 1); s.bind(('0.0.0.0', 443)); s.listen(128)
+cs = []
+while True:
+    c, _ = s.accept(); cs.append(c)
+'''
+
+def lab_run(ctx, s, prefix, cli_bin, runner_bin):
+    """Builds the namespace topology of configuration s, runs the traceroute inside it, tears it down; returns trace events."""
+    import subprocess, time as _t
+    lab = os.path.join(vt.VERIF, 'lab', 'lab.sh')
+    n = s['n']
+    vt.sh([lab, 'down', prefix, str(n)])
+    p = vt.sh([lab, 'up', prefix, str(n)] + [str(x) for x in s['silent']])
+    lis = None
+    try:
+        if p.returncode != 0:
+            raise Infra('lab up failed: ' + p.stdout[-800:])
+        dst = '%sn%d' % (prefix, n + 1)
+        if s['port'] in ('open', 'nosack'):
+            if s['port'] == 'nosack':
+                vt.sh(['ip', 'netns', 'exec', dst, 'sysctl', '-qw', 'net.ipv4.tcp_sack=0'])
+            lis = subprocess.Popen(['ip', 'netns', 'exec', dst, 'python3', '-c', LISTENER], stdout=subprocess.DEVNULL, stderr=subprocess.DEVNULL)
+            for _ in range(50):
+                q = vt.sh(['ip', 'netns', 'exec', dst, 'sh', '-c', 'ss -ltn | grep -c :443'])
+                if q.stdout.strip() not in ('', '0'):
+                    break
+                _t.sleep(0.05)
+        req = s['req']
+        tracer = prefix + 'n0'
+        if s['cli']:
+            cmd = ['ip', 'netns', 'exec', tracer, cli_bin, '--proto', req['protocol'], '-p', str(req['port']), '-q', str(req['queries']), '-Q', str(req['e2e']),
+                   '--max-ttl', str(req['max_ttl']), '--timeout', str(req['timeout_ms'])]
+            if req['tcp_method']:
+                cmd += ['--tcp-method', req['tcp_method']]
+            cmd.append(req['hostname'])
+        else:
+            cmd = ['ip', 'netns', 'exec', tracer, runner_bin, json.dumps(req)]
+        q = subprocess.run(['timeout', '60'] + cmd, stdout=subprocess.PIPE, stderr=subprocess.PIPE, text=True, errors='replace')
+        out = {'ok': False, 'err': q.stderr[-300:], 'runs': [], 'rtts_us': []}
+        if s['cli']:
+            if q.returncode == 0:
+                d = json.loads(q.stdout)
+                runs = []
+                for r in d['traceroute']['runs']:
+                    runs.append({'src': r['source']['ip_address'], 'sport': r['source']['port'], 'dst': r['destination']['ip_address'], 'dport': r['destination']['port'],
+                                 'hops': [{'ttl': h['ttl'], 'addr': h['ip_address'] or '', 'rtt_us': int(round(h['rtt'] * 1000)), 'dest': False, 'reach': h['reachable']} for h in r['hops']]})
+                out = {'ok': True, 'err': '', 'runs': runs, 'rtts_us': [int(round(x * 1000)) for x in (d['e2e_probe']['rtts'] or [])]}
+        else:
+            try:
+                out = json.loads(q.stdout.strip().splitlines()[-1])
+            except Exception:
+                raise Infra('lab runner produced no result: rc=%s %s %s' % (q.returncode, q.stdout[-300:], q.stderr[-300:]))
+    finally:
+        if lis:
+            lis.kill()
+        vt.sh([lab, 'down', prefix, str(n)])
+    return [
+        {'event': 'Begin', 'n': 0, 't': 0, 'idx': 0, 'twin': '', 'scen': s['id']},
+        {'event': 'Params', 'n': 1, 't': 0, 'scen': s['id'], 'variant': 'lab', 'entry': 'lab', 'strict': False, 'min': req['min_ttl'], 'max': req['max_ttl'],
+         'timeout_us': req['timeout_ms'] * 1000, 'delay_us': 20000, 'poll_us': 100000, 'target': req['hostname'], 'port': req['port'], 'cancel_us': 0, 'filter': False,
+         'queries': req['queries'], 'e2e': req['e2e'], 'cli': s['cli'], 'expect': s['expect']},
+        {'event': 'Return', 'n': 2, 't': 0, 'scen': s['id'], 'ok': bool(out['ok']), 'panic': '', 'notsupported': 'SACK not supported' in out.get('err', ''),
+         'errmsg': out.get('err', '')[:200], 'runs': out['runs'], 'rtts_us': out['rtts_us'], 'has_result': bool(out['ok'])},
+    ]
+
+def check_C13(ctx):
+    import subprocess
+    from concurrent.futures import ThreadPoolExecutor
+    if vt.sh(['ip', 'netns', 'add', 'vtprobe%d' % os.getpid()]).returncode != 0:
+        raise Infra('cannot create network namespaces (ip netns add failed)')
+    vt.sh(['ip', 'netns', 'del', 'vtprobe%d' % os.getpid()])
+    out = os.path.join(ctx.scratch, 'lab.ndjson')
+    r = vt.run_tlc('KernelPath', env={'VT_N': '3' if ctx.quick() else '5', 'VT_TIER': ctx.tier, 'VT_OUT': out}, workers=1, timeout=120)
+    if not r.ok():
+        raise Infra('KernelPath failed: ' + vt.filtered(r.out, 20))
+    scen = [json.loads(l) for l in open(out) if l.strip()]
+    # the binaries under test: the CLI of the working tree and a RunTraceroute driver, both WITHOUT the verif tag (real sockets)
+    cli = os.path.join(ctx.scratch, 'datadog-traceroute'); runner = os.path.join(ctx.scratch, 'runner')
+    p = vt.sh(['go', 'build', '-o', cli, '.'], cwd=vt.REPO, env=vt.goenv())
+    if p.returncode != 0:
+        raise Infra('building the CLI failed: ' + p.stdout[-1500:])
+    import shutil
+    shutil.copy(os.path.join(vt.REPO, 'go.sum'), os.path.join(vt.VERIF, 'lab', 'runner', 'go.sum'))
+    p = vt.sh(['go', 'build', '-o', runner, '.'], cwd=os.path.join(vt.VERIF, 'lab', 'runner'), env=vt.goenv())
+    if p.returncode != 0:
+        raise Infra('building the lab runner failed: ' + p.stdout[-1500:])
+    pid = os.getpid() % 10000
+    def one(args):
+        k, s = args
+        return lab_run(ctx, s, 'v%dx%d' % (pid, k % 1000), cli, runner)
+    def run_all(ss, name):
+        with ThreadPoolExecutor(max_workers=6) as ex:
+            evs = list(ex.map(one, list(enumerate(ss))))
+        tp = os.path.join(ctx.scratch, name + '.trace.ndjson')
+        with open(tp, 'w') as f:
+            for es in evs:
+                for e in es:
+                    f.write(json.dumps(e) + '\n')
+        return tp, evs
+    tp, evs = run_all(scen, 'lab')
+    ctx.evaluations += len(scen); ctx.validated += len(scen)
+    ctx.nontrivial.update(s['label'] for s in scen)
+    ctx.states += r.distinct; ctx.transitions += max(r.generated, 1)
+    ctx.samples.append({'configuration': scen[0], 'observed': evs[0][-1]})
+    viol = [sid for pr, sid in vt.observe(ctx, [tp], ['C13']) if pr == 'C13']
+    by = {s['id']: s for s in scen}
+    for sid in viol[:4]:
+        # real time, real kernel: a mismatch must reproduce 3 out of 3 times, otherwise the check is inconclusive
+        tp2, evs2 = run_all([by[sid]] * 3, 'confirm')
+        # three copies share one id: evaluate them one by one
+        bad = 0
+        for es in evs2:
+            one_tp = os.path.join(ctx.scratch, 'confirm1.trace.ndjson')
+            open(one_tp, 'w').write(''.join(json.dumps(e) + '\n' for e in es))
+            if any(pr == 'C13' for pr, _ in vt.observe(ctx, [one_tp], ['C13'])):
+                bad += 1
+        if bad < 3:
+            raise Infra('kernel-lab mismatch on %s reproduced only %d/3 times (inconclusive)' % (sid, bad))
+        label = by[sid]['label']
+        known = [k for k in vt.load_known() if k.get('status') == 'known' and k['property'] == 'C13']
+        import fnmatch
+        kf = [k for k in known if fnmatch.fnmatchcase(label, k['signature'])]
+        if kf:
+            ctx.known.append(('C13', label, kf[0].get('what', '')))
+            continue
+        d = vt.save_replay(ctx, 'C13', [by[sid]], evs2[0], 'kernel lab configuration; observed vs KernelPath!Expected')
+        ctx.violations.append(('C13', label, sid, d))
+    ctx.extra['rule'] = ('configurations enumerated by TLC from KernelPath.tla (path length, variant, destination port open/closed/SACK-disabled, silent routers, first TTL, '
+                         'concurrent runs, CLI vs library) built as chains of network namespaces with kernel routers; the CLI / a RunTraceroute driver built from the working tree '
+                         '(no verif tag: AF_PACKET source, raw sink, attach-and-drain) runs inside; its JSON is validated by TLC against KernelPath!Expected; distinct by label')
+    ctx.assumptions.append('real time and the real kernel: 500 ms timeouts against ~0.1 ms RTTs, ICMP rate limiting off; a mismatch must reproduce 3/3 or the check exits 2')
+    vt.write_evidence(ctx, 'model_checking', ctx.extra['rule'], exhaustive=True)
+
 def check_C07(ctx):
     cfgs = ['EngineParallelMC.cfg', 'EngineParallelMC_faults.cfg']
     if not ctx.quick():
@@ -580,7 +715,7 @@ def check_C07(ctx):
     vt.write_evidence(ctx, 'model_checking', ctx_rule(ctx), exhaustive=True)
 
 CHECKS = {
-    'C01': check_C01, 'C02': check_C02, 'C03': check_C03, 'C04': check_C04, 'C05': check_C05, 'C06': check_C06, 'C07': check_C07, 'C08': check_C08, 'C09': check_C09, 'C10': check_C10, 'C11': check_C11, 'C12': check_C12, 'C14': check_C14, 'C15': check_C15, 'C16': check_C16, 'C17': check_C17, 'C18': check_C18, 'C20': check_C20, 'C19': check_C19,
+    'C01': check_C01, 'C02': check_C02, 'C03': check_C03, 'C04': check_C04, 'C05': check_C05, 'C06': check_C06, 'C07': check_C07, 'C08': check_C08, 'C09': check_C09, 'C10': check_C10, 'C11': check_C11, 'C12': check_C12, 'C13': check_C13, 'C14': check_C14, 'C15': check_C15, 'C16': check_C16, 'C17': check_C17, 'C18': check_C18, 'C20': check_C20, 'C19': check_C19,
 }
 
 def replay(ctx, path):
